@@ -149,6 +149,7 @@ func Run(o Options) int {
 	have := map[string]bool{}       // unit keys scheduled
 	assumedModels := map[string]bool{} // interface-method contracts used (model contracts, implementations not checked)
 	refinedModels := map[string]bool{} // interface-method contracts used and proved for the coupled implementation
+	overrideGaps := map[string]string{} // method of an implementing type without contract -> the model contract it escapes
 	for _, u := range units {
 		have[u.Key] = true
 	}
@@ -207,6 +208,12 @@ func Run(o Options) int {
 						}
 						if refined {
 							refinedModels[k] = true
+							// the model is established by refinement for the coupled implementation: an implementing type that
+							// declares the method itself escapes that proof unless its method is under contract too
+							_, un := w.Overrides(k)
+							for _, ok := range un {
+								overrideGaps[ok] = k
+							}
 						} else {
 							assumedModels[k] = true
 						}
@@ -423,6 +430,20 @@ func Run(o Options) int {
 			} else {
 				problems = append(problems, msg)
 			}
+		}
+	}
+	if !o.Sweep && o.UnitFilter == "" {
+		var gaps []string
+		for k := range overrideGaps {
+			gaps = append(gaps, k)
+		}
+		sort.Strings(gaps)
+		for _, k := range gaps {
+			g := &group{Name: vc.ShortKey(k) + "/uncontracted-override", Unit: vc.ShortKey(k), Kind: "override",
+				Text: "a type implementing the interface declares this method itself and has no contract: the model contract " + vc.ShortKey(overrideGaps[k]) + ", which callers of this run rely on and which is proved for the coupled implementation only, is not established for it",
+				Detail: "no contract for " + k}
+			path := writeReplay(o, g, "")
+			violations = append(violations, fmt.Sprintf("VIOLATION property=%s replay=%s obligation=%s no-failing-input-found", o.Prop, path, strings.ReplaceAll(g.Name, " ", "_")))
 		}
 	}
 	if obligations == 0 && len(problems) == 0 {
